@@ -789,6 +789,77 @@ def run_check(tier, seed):
                           key='C19:normalize-value')
         run.count(('normalize', str(e)), nontrivial=n_cmp > 0)
 
+    # ======== (3a) constants: trigonometric functions at rational multiples of pi in all four quadrants and beyond one turn
+    #               (written k*pi/d, k/d*pi, pi*k/d, -...), roots and rational powers of numerals, exp / log of constants,
+    #               alone and in small combinations; with a variable factor as well (the constant sits inside a polynomial)
+    def const_text():
+        k_, d_ = r.randint(-9, 9), r.choice([1, 2, 3, 4, 6])
+        f_ = r.choice(['sin', 'cos', 'sin', 'cos', 'tan', 'cot', 'sec', 'csc'])
+        ang = r.choice(['%d*pi/%d' % (k_, d_), '%d/%d*pi' % (k_, d_), 'pi*%d/%d' % (k_, d_), '(%d*pi)/%d' % (k_, d_)]) if d_ != 1 else \
+            r.choice(['%d*pi' % k_, 'pi*%d' % k_])
+        trig = '%s(%s)' % (f_, ang)
+        others = ['sqrt(%d)' % r.choice([2, 3, 4, 8, 12, 18]), '%d^(1/2)' % r.choice([2, 4, 8]), '%d^(3/2)' % r.choice([2, 4]), '%d^(-1/2)' % r.choice([2, 4, 9]),
+                  'exp(%d)' % r.choice([0, 1, 2]), 'log(%d)' % r.choice([1, 2, 4]), 'log(exp(%d))' % r.choice([1, 2]), 'exp(log(%d))' % r.choice([2, 3]),
+                  'atan(1)', 'atan(sqrt(3))', 'asin(1/2)', 'acos(1/2)', 'pi', 'pi^2', '%d' % r.choice([2, 3, -1])]
+        c = r.random()
+        if c < 0.45:
+            return trig
+        if c < 0.6:
+            return r.choice(others)
+        if c < 0.8:
+            return '%s %s %s' % (trig, r.choice(['+', '-', '*']), r.choice(others + [const_text_simple()]))
+        if c < 0.9:
+            return '%s * x + %s' % (trig, r.choice(others))
+        return '%d * %s' % (r.choice([2, 3, -1]), trig)
+
+    def const_text_simple():
+        k_, d_ = r.randint(-9, 9), r.choice([2, 3, 4, 6])
+        return '%s(%d*pi/%d)' % (r.choice(['sin', 'cos']), k_, d_)
+    n_const = n_const_cmp = 0
+    for _ in range(120 * scale):
+        text = const_text()
+        try:
+            e = iparser.parse_expr(text)
+        except RecursionError:
+            raise
+        except Exception as ex:
+            run.stat('const_parse_exc:' + type(ex).__name__)
+            continue
+        try:
+            n1 = with_timeout(10, lambda: poly.normalize(e, conds))
+            n2 = with_timeout(10, lambda: poly.normalize(n1, conds))
+        except Alarm:
+            run.stat('normalize_timeout')
+            continue
+        except RecursionError:
+            raise
+        except Exception as ex:
+            run.stat('const_normalize_exc:' + type(ex).__name__)
+            continue
+        n_const += 1
+        ok_pts, diff = 0, []
+        for x0 in pts[:3]:
+            try:
+                mp.dps = 40
+                a, b = nev(e, {'x': x0}), nev(n1, {'x': x0})
+            except (Undefined, ZeroDivisionError, ValueError, OverflowError):
+                continue
+            if abs(a) > mpf(10) ** 12 or abs(b) > mpf(10) ** 12:
+                continue            # a pole evaluated in floating point (tan(pi / 2)): no value to compare
+            ok_pts += 1
+            if not close(a, b):
+                diff.append((str(x0), mpmath.nstr(a, 12), mpmath.nstr(b, 12)))
+        if ok_pts:
+            n_const_cmp += 1
+        if diff and len(diff) == ok_pts:
+            run.violation('property', 'normalize changes the value of the constant expression %s (gives %s)' % (text, n1),
+                          dict(expr=text, parsed=str(e), normal_form=str(n1), points=diff), key='C19:normalize-value:constant')
+        if n1 != n2:
+            run.violation('property', 'normalize is not idempotent on %s: %s then %s' % (text, n1, n2), dict(expr=text, once=str(n1), twice=str(n2)),
+                          key='C19:normalize-idempotent:constant')
+        run.count(('normalize-const', text), nontrivial=ok_pts > 0)
+    run.cov['search_constants'] = dict(normalised=n_const, compared=n_const_cmp)
+
     # ======== (3b) limits at infinity whose value depends on the side from which a sub-term approaches its limit
     run.cov['search_limits'] = limits_family(run, r, 150 * scale)
 
